@@ -6,8 +6,9 @@ import numpy as np
 from classy_blocks.construct.array import Array
 from classy_blocks.construct.curves.curve import FunctionCurveBase
 from classy_blocks.construct.curves.interpolators import InterpolatorBase, LinearInterpolator, SplineInterpolator
-from classy_blocks.types import PointListType
+from classy_blocks.types import PointListType, PointType
 from classy_blocks.util import functions as f
+from classy_blocks.util.constants import DTYPE
 
 
 class InterpolatedCurveBase(FunctionCurveBase, abc.ABC):
@@ -60,6 +61,27 @@ class InterpolatedCurveBase(FunctionCurveBase, abc.ABC):
 
 class LinearInterpolatedCurve(InterpolatedCurveBase):
     _interpolator = LinearInterpolator
+
+    def get_closest_param(self, point: PointType) -> float:
+        """Finds the parameter on curve where point is the closest to given point.
+
+        This curve is a polyline so the closest point is found exactly by projecting the given
+        point to each segment; a local minimization from a coarse initial guess can end
+        on a wrong segment or get stuck in a corner when the segments are of uneven lengths."""
+        point = np.asarray(point, dtype=DTYPE)
+        params = self.function.params
+        starts = self.array.points[:-1]
+        vectors = self.array.points[1:] - starts
+
+        # relative position of the projection on each segment, limited to the segment
+        lengths = np.sum(vectors**2, axis=1)
+        ratios = np.sum((point - starts) * vectors, axis=1) / np.where(lengths > 0, lengths, 1)
+        ratios = np.clip(ratios, 0, 1)
+
+        distances = np.sum((starts + vectors * ratios[:, np.newaxis] - point) ** 2, axis=1)
+        i_segment = int(np.argmin(distances))
+
+        return float(params[i_segment] + ratios[i_segment] * (params[i_segment + 1] - params[i_segment]))
 
 
 class SplineInterpolatedCurve(InterpolatedCurveBase):
